@@ -112,6 +112,7 @@ def check_entry(rep, facts, entry, init, label):
 def run(rep, facts):
     rep.rule("R8.1", "at every transport read (poll_read on the reader type parameter, or await of AsyncReadExt::read): "
                      "P (every buffered complete record parsed) and F_req, F_stream (parser reply buffers handed to the transport) hold on all paths")
+    rep.rule("R8.3", "both parsers' parse() drive their state machine / processing loop on every successful return (necessary condition of the assumption that parse() consumes what is buffered)")
     rep.rule("R8.2", "at into_stream_parser / into_request_parser the converted parser's reply buffer is flushed on all paths")
     rep.assume("a parser's parse() processes every complete buffered record unless it returns stream data, end-of-stream or an error")
     rep.assume("while the handler runs it may call any public Request API; those APIs are analysed as entry points with unknown initial facts")
@@ -123,6 +124,15 @@ def run(rep, facts):
     for e in ENTRIES_HANDLER:
         r, h = check_entry(rep, facts, e, frozenset(["Freq"]), e.split("::")[-1].replace("{closure#0}", "").strip(":") or e)
         total_reads += r
+    # R8.3: the structural part of the assumption "parse() processes what is buffered": both public parse functions
+    # drive their state machine / processing loop on every successful return (no early-out on new_input == 0 etc.)
+    import check as _check
+    from . import c03
+    sr = _check.Report("tmp", "quick")
+    c03.run(sr, facts)
+    for i in sr.instances:
+        if i["instance"] in ("parse/clear-then-drive", "parse/drives-state-machine", "stream-parse/always-processes"):
+            (rep.ok if i["status"] == "ok" else rep.violation)("R8.3", i["instance"], i["detail"], i["loc"])
     # counted on the pinned tree: run reaches 4 transport reads (preamble, 2x poll_input via writeable/close, record_boundary);
     # each handler entry reaches 1
     rep.floor("R8.1", "transport reads reachable from the entry points", total_reads, 6)
